@@ -51,6 +51,8 @@ def parseRole : Option String → Role
 
 def parseLb : Option String → LeaderBehaviour
   | some "down" => .down
+  -- no leader known (the lock names no holder): nobody to ask, nobody to forward to - the node behaves as with a leader that is down
+  | some "none" => .down
   | some "err" => .err
   | _ => .ok
 
